@@ -64,9 +64,7 @@ def enumerate_cases(tier, name="convert-mc"):
         gen += st[0]
         dist += st[1]
         cases += found
-    cases = sorted(set(cases))
-    if len(cases) != dist:
-        raise tlc.MachineryError("MC_Convert: %d distinct states, %d distinct documents" % (dist, len(cases)))
+    cases = sorted(set(cases))      # path cases: several stored-form vectors can give the same document
     return [dict(id=i + 1, kind=k, ver=v, text=txt) for i, (k, v, txt) in enumerate(cases)], gen, dist
 
 
